@@ -228,7 +228,12 @@ class GraphNode(HyperNode):
         # Find which node in inner graph has this as an input
         for inner_node in self._graph.iter_nodes():
             if original_param in inner_node.inputs:
-                return inner_node.get_input_type(original_param)
+                inner_type = inner_node.get_input_type(original_param)
+                # A mapped parameter receives a list of such values (as mapped outputs
+                # are lists of the inner output type)
+                if inner_type is not None and self._map_over and param in self._map_over:
+                    return list[inner_type]
+                return inner_type
         return None
 
     def _resolve_original_input_name(self, param: str) -> str:
